@@ -409,6 +409,12 @@ theorem reparse_sound (hF : FromSpecOk env) (hP : PyMergeOk env) (m m' : M) (hp 
 
 end
 
+/-- `reparse_sound` with the bridge facts proved (C02.bridge) -/
+theorem reparse_sound_final (env : Env) (he : EnvTotal env) (m m' : M) (hp : Printable m)
+    (hg : GAll (Good env) m) (k : Nat) (hk : C12.depth m ≤ k)
+    (hb : build (k + 1) (.group (items m)) = some m') : sem env m' = sem env m :=
+  reparse_sound env he (C02.bridge env he).1 (C02.bridge env he).2 m m' hp hg k hk hb
+
 /-- non-vacuity: a printable marker with a parenthesised group, a literal-on-the-left atom and a grouped atom -/
 example : let m : M := .multi [.expr ⟨"sys_platform", .in_, "lin", true, .gen ⟨.contains, "lin"⟩⟩,
                                 .union [.eqU "os_name" ["a", "b"], .neM "platform_machine" ["x"]]]
